@@ -11,12 +11,15 @@ RULE = ("planar disks: jittered grids (2x2..7x7), fans, strips, L-shaped (non-co
         "barycentric queries. distinct = distinct (tag, input)")
 TRUSTED_BASE = [
     "Coq 8.16.1 kernel and vm_compute",
-    "hand-written model coq/Model/Flatten.v of engeom's own bookkeeping: UvMapping::point / triangle (barycentric map and its inverse) tied by differential correspondence Tie/C20.v",
-    "the flattening pipeline (faer sparse LU, cotangent Laplacian assembly) is certified per case by tools/props/c20.py: one finite position per vertex, every edge length preserved, every triangle positively oriented, invariance under rigid motion of the input, rejection of non-disks",
+    "hand-written model coq/Model/Flatten.v of engeom's UV bookkeeping: UvMapping::point / triangle (barycentric map and its inverse) tied by differential correspondence Tie/C20.v (check_uv)",
+    "hand-written model coq/Model/Conformal.v of engeom's arithmetic upstream of the sparse solver (face angles, angle defects, cotangent weights, diagonals, triplets with the regulariser, boundary lengths and masses, cumulative sums), tied by differential correspondence (check_internals) through the hook conformal_verif (commit 6add97f) on the edge table the implementation built (identify_edges: C12)",
+    "the flattening certificate (every edge length kept, every triangle positively oriented before and after) is evaluated in Coq at binary64 (check_cert, relative tolerance 1e-6) on every accepted planar disk; Proofs/Congruent.v proves that the exact certificate is equivalent to one proper rigid motion carrying the edge-connected mesh onto its layout",
+    "the sparse LU (faer), the best-fit boundary curve and the extension step are NOT modelled: their effect is certified per case (certificate above; invariance under rigid motion of the input; rejection of non-disks)",
 ]
 ASSUMPTIONS = [
-    "that boundary-first flattening is an isometry on every planar disk is NOT proved (would need the theory of discrete harmonic conjugates); it is validated per explored mesh",
+    "that boundary-first flattening reproduces every planar disk is NOT proved end to end; proved: the face angles are the geometric angles, the assembled matrix is a symmetric graph Laplacian plus 1e-8 whose rows annihilate (up to the regulariser) both coordinate functions of a planar mesh at every vertex with a closed positively oriented fan - the interior equations of the flattening are solved by the layout that reproduces the mesh; the boundary step is validated per explored mesh",
     "edge lengths are compared with relative tolerance 1e-6 (the regulariser 1e-8 in the Laplacian makes the result approximate)",
+    "cases with a face angle within 0.05 of 0 or pi are not compared by check_internals (the cotangent amplifies rounding beyond a fixed tolerance): counted as ambiguous",
 ]
 
 
@@ -179,6 +182,15 @@ def gen_uv(rng):
     return {"k": "c20.uv", "verts": verts, "faces": f, "uvs": uvs, "queries": qs, "kind": kind, "frame": rng.choice([fr, fr, [0.0] * 6])}
 
 
+def gen_internals(rng):
+    p2, f, kind = planar_disk(rng)
+    if rng.random() < 0.6:
+        verts = pose(rng, [[x, y, 0.0] for x, y in p2])
+        return {"k": "c20.internals", "verts": verts, "faces": f, "kind": "planar:" + kind, "flat": p2}
+    cap = [[x, y, 0.05 * (x * x + y * y) / planar_disk.scale] for x, y in p2]
+    return {"k": "c20.internals", "verts": pose(rng, cap), "faces": f, "kind": "curved:" + kind, "flat": None}
+
+
 def corpus():
     yield {"k": "c20.uv", "verts": [[0.0, 0.0, 0.0], [1.0, 0.0, 0.0], [0.0, 1.0, 0.0]], "faces": [[0, 1, 2]], "uvs": [[0.0, 0.0], [1.0, 0.0], [0.0, 1.0]],
            "queries": [[0, 0.25, 0.25, 0.5]], "kind": "corpus"}       # D20 witness: an interior point
@@ -186,7 +198,7 @@ def corpus():
 
 def generate(rng, tier):
     n = 120 if tier == "quick" else 1500
-    return [gen_flatten(rng) for _ in range(n)] + [gen_uv(rng) for _ in range(n // 2)]
+    return [gen_flatten(rng) for _ in range(n)] + [gen_uv(rng) for _ in range(n // 2)] + [gen_internals(rng) for _ in range(n // 2)]
 
 
 def tag(c, r):
@@ -198,6 +210,17 @@ def T(p):
 
 
 def coq_check(c, r):
+    if c["k"] == "c20.internals":
+        if "angles" not in r:
+            return None
+        I = lambda l: [tuple(int(i) for i in e) for e in l]
+        return "check_internals %s %s %s %s %s %s %s %s %s %s %s %s" % (
+            coq([T(p) for p in c["verts"]]), coq(I(c["faces"])), coq(I(r["edges"])), coq(I(r["face_edges"])), coq([int(i) for i in r["bound"]]),
+            coq(list(r["edge_lengths"])), coq([T(a) for a in r["angles"]]), coq(list(r["defects"])), coq([(int(t[0]), int(t[1]), float(t[2])) for t in r["triplets"]]),
+            coq(list(r["blen"])), coq(list(r["bmass"])), coq(list(r["cumsum"])))
+    if c["k"] == "c20.flatten" and c.get("flat") and r.get("uv") and len(r["uv"]) == len(c["flat"]):
+        scale = max(math.dist(c["flat"][a], c["flat"][b]) for f in c["faces"] for a, b in ((f[0], f[1]), (f[1], f[2]), (f[2], f[0])))
+        return "check_cert %s %s %s %s" % (coq([T(q) for q in c["flat"]]), coq([T(q) for q in r["uv"]]), coq([tuple(int(i) for i in f) for f in c["faces"]]), coq(float(scale)))
     if c["k"] != "c20.uv" or r.get("err"):
         return None
     obs = []
@@ -264,6 +287,69 @@ def oracle(c, r):
                 sg = lambda L, f: (L[f[1]][0] - L[f[0]][0]) * (L[f[2]][1] - L[f[0]][1]) - (L[f[1]][1] - L[f[0]][1]) * (L[f[2]][0] - L[f[0]][0])
                 if any((sg(uv, f) > 0) != (sg(mv, f) > 0) for f in c["faces"]):
                     yield ("flatten-invariant", what + ": the layouts differ by a reflection")
+    elif k == "c20.internals":
+        what = "flattening internals of a %s mesh (%d vertices, %d faces)" % (c["kind"], len(c["verts"]), len(c["faces"]))
+        if r.get("panic") or "angles" not in r:
+            yield ("internals-failed", what + ": %r" % ({kk: v for kk, v in r.items() if kk in ("panic", "edges_err", "loops")},))
+            return
+        V, F = c["verts"], c["faces"]
+        n = len(V)
+        sub = lambda a, b: [x - y for x, y in zip(a, b)]
+        dot = lambda a, b: sum(x * y for x, y in zip(a, b))
+        # 1. the face angles are the geometric angles (computed here from dot products, not from the law of cosines)
+        for fi, (f, ang) in enumerate(zip(F, r["angles"])):
+            for kk in range(3):
+                u, v = sub(V[f[(kk + 1) % 3]], V[f[kk]]), sub(V[f[(kk + 2) % 3]], V[f[kk]])
+                want = math.acos(max(-1.0, min(1.0, dot(u, v) / math.sqrt(dot(u, u) * dot(v, v)))))
+                if abs(ang[kk] - want) > 1e-7:
+                    yield ("face-angle", what + ": face %d %r angle %d is %r, the angle of the triangle at that vertex is %r" % (fi, f, kk, ang[kk], want))
+                    return
+        # 2. angle defects: on a planar mesh every interior vertex has none; on any disk they add up to 2 pi minus (pi per boundary vertex turned) = 2 pi chi - pi |boundary| ...
+        bset = set(int(i) for i in r["bound"])
+        if c["kind"].startswith("planar"):
+            for v in range(n):
+                if v not in bset and abs(r["defects"][v]) > 1e-7:
+                    yield ("angle-defect", what + ": interior vertex %d of a planar mesh has angle defect %r" % (v, r["defects"][v]))
+                    return
+            tot = sum(r["defects"][v] for v in bset)
+            if abs(tot - 2 * math.pi) > 1e-6:
+                yield ("angle-defect", what + ": the boundary turning angles of a planar disk add up to %r, not 2 pi" % tot)
+        # 3. the matrix: symmetric, rows add up to the regulariser, and on a planar mesh interior rows map the coordinates to eps * coordinate
+        M = {}
+        for a, b, v in r["triplets"]:
+            M[(int(a), int(b))] = M.get((int(a), int(b)), 0.0) + v
+        big = max(abs(v) for v in M.values())
+        for (a, b), v in M.items():
+            if abs(M.get((b, a), 0.0) - v) > 1e-12 * big:
+                yield ("laplacian-symmetric", what + ": entry (%d,%d) = %r but (%d,%d) = %r" % (a, b, v, b, a, M.get((b, a))))
+                return
+        for i in range(n):
+            rs = sum(v for (a, b), v in M.items() if a == i)
+            if abs(rs - 1e-8) > 1e-9 * big:
+                yield ("laplacian-row-sum", what + ": row %d adds up to %r, not to the regulariser 1e-8" % (i, rs))
+                return
+        if c["kind"].startswith("planar"):
+            P = c["flat"]
+            sc = max(abs(x) for q in P for x in q)
+            for i in range(n):
+                if i in bset:
+                    continue
+                for d in range(2):
+                    val = sum(v * P[b][d] for (a, b), v in M.items() if a == i)
+                    if abs(val - 1e-8 * P[i][d]) > 1e-9 * big * sc:
+                        yield ("laplacian-harmonic", what + ": row %d applied to coordinate %d of the planar positions gives %r, not eps * %r" % (i, d, val, P[i][d]))
+                        return
+        # 4. boundary lengths and vertex masses
+        ib = [int(i) for i in r["bound"]]
+        for kk in range(len(ib)):
+            want = math.dist(V[ib[kk]], V[ib[(kk + 1) % len(ib)]])
+            if abs(r["blen"][kk] - want) > 1e-9 * max(1.0, want):
+                yield ("boundary-length", what + ": boundary edge %d has length %r, computed %r" % (kk, want, r["blen"][kk]))
+                return
+            m = (r["blen"][kk - 1] + r["blen"][kk]) / 2
+            if abs(r["bmass"][kk] - m) > 1e-9 * max(1.0, m):
+                yield ("boundary-mass", what + ": boundary vertex %d has mass %r, half its two edges is %r" % (kk, r["bmass"][kk], m))
+                return
     elif k == "c20.uv":
         if r.get("err"):
             return
